@@ -266,6 +266,7 @@ def run_batch(check, tier: str, seed: int, runs: int | None = None, start: int =
         log(f'VERIF_SEED={seed} property={check.PROPERTY} tier={tier} runs={runs} start={start} workers={workers} '
             f'hashseed={os.environ.get("PYTHONHASHSEED")} kernpy={kernpy_src()}')
 
+    canaries = run_canaries(check, known) if write_evidence else {}
     jobs = [(seed, tier, list(range(s, min(s + chunk, start + runs)))) for s in range(start, start + runs, chunk)]
     results = []
     harness_errors = []
@@ -309,10 +310,30 @@ def run_batch(check, tier: str, seed: int, runs: int | None = None, start: int =
             harness_errors.extend(r['harness_errors'])
     good = [r for r in results if 'fatal' not in r]
     wall = time.time() - t0
-    return _finish(check, tier, seed, start, runs, good, harness_errors, truncated, wall, known, workers, write_evidence, quiet)
+    return _finish(check, tier, seed, start, runs, good, harness_errors, truncated, wall, known, workers, write_evidence, quiet, canaries)
 
 
-def _finish(check, tier, seed, start, runs, good, harness_errors, truncated, wall, known, workers, write_evidence, quiet):
+def run_canaries(check, known):
+    """Re-execute the committed minimised example of every listed finding (known_examples/<id>.json), each in its own fork.
+    A finding is thereby tied to one specific input/history that fails; if upstream repairs it the line says so."""
+    out = {}
+    for e in known:
+        path = os.path.join(VERIF_DIR, 'known_examples', e['id'] + '.json')
+        try:
+            with open(path, encoding='utf-8') as f:
+                ex = json.load(f)
+        except FileNotFoundError:
+            continue
+        fn = check.MATCHERS.get(e.get('matcher'))
+        others = [x for x in known if x['id'] != e['id']]
+        r = eval_isolated(check, others, [], ex['plan'], ex['signature'])
+        ok = r['hit'] is not None and fn is not None and bool(fn(r['hit'], e.get('params') or {}))
+        out[e['id']] = 'its committed example still fails' if ok else 'its committed example NO LONGER fails on this tree'
+    return out
+
+
+def _finish(check, tier, seed, start, runs, good, harness_errors, truncated, wall, known, workers, write_evidence, quiet, canaries=None):
+    canaries = canaries or {}
     prop = check.PROPERTY
     faults = collections.Counter()
     probes = collections.Counter()
@@ -354,12 +375,13 @@ def _finish(check, tier, seed, start, runs, good, harness_errors, truncated, wal
     rc = 0
     out_lines = []
     known_by_id = {e['id']: e for e in known}
-    for kid in sorted(known_hits):
-        out_lines.append(f'KNOWN-FINDING: property={prop} {kid}: {known_by_id[kid]["what_fails"]} (hit {known_hits[kid]}x in this batch)')
     # a listed finding is announced on every run, hit or not, so the line does not depend on the sample
     for e in known:
-        if e['id'] not in known_hits:
-            out_lines.append(f'KNOWN-FINDING: property={prop} {e["id"]}: {e["what_fails"]} (listed; not hit in this batch)')
+        kid = e['id']
+        note = f'hit {known_hits[kid]}x in this batch' if kid in known_hits else 'listed; not hit in this batch'
+        if kid in canaries:
+            note += '; ' + canaries[kid]
+        out_lines.append(f'KNOWN-FINDING: property={prop} {kid}: {e["what_fails"]} ({note})')
 
     replay_path = None
     if unlisted:
@@ -406,6 +428,7 @@ def _finish(check, tier, seed, start, runs, good, harness_errors, truncated, wal
             'distinct_states': {'count': distinct, 'measure': getattr(check, 'DISTINCT_MEASURE', 'distinct shape digests of non-trivial runs')},
             'configs': dict(configs),
             'known_findings_hit': dict(known_hits),
+            'known_findings_examples': canaries,
             'unlisted_violations': unlisted_n,
             'unlisted_signatures': dict(unlisted_sigs.most_common(20)),
             'components': check.COMPONENTS,
